@@ -597,3 +597,305 @@ def run_C18(ck):
                 return 'file using an unsupported feature (%s) was not refused: %s' % (c['meta']['feature'], c['r'].get('verdict'))
             return None
         judge(ck, c, ['verdict', 'out'], oracle, 'both')
+
+# ------------------------------------------------------------------ C04: compression
+def is_prefix(a, b):
+    return len(a) <= len(b) and b[:len(a)] == a
+
+@prop('C04', 'byte strings (lengths 0, 1, 65535, 65536, 65537, k*64KiB, random; contents incl. 0x00/0xFF runs that saturate probabilities and push carries through 0xFF) x the three compressors x {WriteToHeader(None), WriteToHeader(Some len), SkipWritingToHeader} x reader fragmentation; output compared byte-for-byte with the model and (LZMA) with the reference encoding of the literal program; then decoded by lzma-rs, by the model and, if present, by xz; non-trivial = non-empty input',
+      ['the independent conforming decoder is the Coq format theory (reference encoder / model decoder) and, when installed, the xz binary'])
+def run_C04(ck):
+    rng = Rng(ck.seed).fork('C04')
+    quick = ck.tier == 'quick'
+    inputs = [b'', b'a', b'\x00', b'\xff' * 3, bytes(range(256))]
+    for n in ([300, 5000] if quick else [300, 5000, 40000, 70000]):
+        inputs += [b'\x00' * n, b'\xff' * n, rng.bytes(n), bytes(rng.choice([0xff, 0xff, 0xfe, 0x00]) for _ in range(n))]
+    for _ in range(25 if quick else 200):
+        n = rng.choice([2, 3, 7, 50, 200, 1000])
+        inputs.append(rng.bytes(n) if rng.chance(1, 2) else bytes(rng.choice([0, 0xff, 0x80]) for _ in range(n)))
+    edge = [65535, 65536, 65537, 131072] + ([] if quick else [131073, 196608, 65536 * 5 + 1])
+    cases = []
+    def add(op, data, opt=None, rd='all', wr='all'):
+        line = '%s %sin=%s rd=%s wr=%s' % (op, ('opt=%s ' % opt) if opt else '', hx(data), rd, wr)
+        cases.append({'line': line, 'meta': {'op': op, 'len': len(data), 'opt': opt, 'rd': rd, 'wr': wr}, 'data': data, 'op': op, 'opt': opt})
+        ck.count(op); ck.count('rd_' + rd.split(':')[0][:6])
+    RDS = ['all', '1', '3,1,7', '65536', '65535,2', 'std:slice', '70000']   # not std:buf: BufReader::read bypasses its buffer for large reads, so it is not a pure fragmentation policy
+    for data in inputs:
+        for opt in ('wh:none', 'wh:%d' % len(data), 'skip'):
+            add('lzma_enc', data, opt, rng.choice(RDS), rng.choice(['all', 'all', '1', '2,5']))
+        add('lzma2_enc', data, None, rng.choice(RDS), rng.choice(['all', '1', '3,1']))
+        add('xz_enc', data, None, rng.choice(RDS), rng.choice(['all', '1', '3,1', '7']))
+    for n in edge:
+        data = rng.bytes(n) if n < 70000 else bytes([rng.below(256)]) * n
+        for rd in ['all', '65536', '1' if n <= 65537 else '4096', '65535,2', '8192']:
+            add('lzma2_enc', data, None, rd)
+            add('xz_enc', data, None, rd, rng.choice(['all', '100']))
+    run_both(ck, cases)
+    # conformance of lzma_enc with the format theory: output = header ++ reference encoding of the literal program
+    lz = [c for c in cases if c['op'] == 'lzma_enc' and c['meta']['len'] <= 6000]
+    refs = ref_encode(['ref_payload lc=3 lp=0 pb=2 window=8388608 prog=%s' % ('.'.join(['L%d' % b for b in c['data']] + (['E'] if c['opt'] == 'wh:none' else [])) or '-') for c in lz])
+    for c, ref in zip(lz, refs):
+        if ref is None: raise InfraError('reference encoder rejected a literal program')
+        hdr = bytes([0x5d]) + struct.pack('<I', 0x800000)
+        if c['opt'] == 'wh:none': hdr += b'\xff' * 8
+        elif c['opt'].startswith('wh:'): hdr += struct.pack('<Q', int(c['opt'][3:]))
+        c['conform'] = hdr + ref[0]
+    # round trip through the implementation's own decoders
+    dec = []
+    for c in cases:
+        r = c['r']
+        if r.get('verdict') != 'ok': continue
+        out = r.get('out', '-')
+        if c['op'] == 'lzma_enc':
+            o = c['opt']
+            dopt = 'rfh' if o.startswith('wh') else 'up:%d' % len(c['data'])
+            dec.append(({'line': 'lzma_dec opt=%s in=%s' % (dopt, out)}, c))
+            if o == 'wh:none' or o == 'skip':
+                pass
+        elif c['op'] == 'lzma2_enc':
+            dec.append(({'line': 'lzma2_dec in=%s' % out}, c))
+        else:
+            dec.append(({'line': 'xz_dec in=%s' % out}, c))
+    run_both(ck, [d for d, _ in dec])
+    back = {id(c): d for d, c in dec}
+    have_xz = shutil.which('xz') is not None
+    for c in cases:
+        ck.note_case(c['line'], c['meta']['len'] > 0)
+        def oracle(c):
+            r = c['r']
+            if r.get('verdict') != 'ok': return 'compressor failed without any fault: %s' % r.get('verdict')
+            if 'conform' in c and unhx(r['out']) != c['conform']:
+                return 'lzma_compress output is not the reference encoding of its input (format conformance)'
+            d = back.get(id(c))
+            if d is None: return 'no round trip performed'
+            if d['r'].get('verdict') != 'ok' or unhx(d['r'].get('out', '-')) != c['data']:
+                return 'compressed output does not decode back to the input with lzma-rs (%s)' % d['r'].get('verdict')
+            if d['m'].get('verdict') != 'ok' or unhx(d['m'].get('out', '-')) != c['data']:
+                return 'compressed output does not decode back to the input under the format model'
+            return None
+        judge(ck, c, ['verdict', 'out', 'pos'], oracle, 'both')
+    if have_xz:
+        n = 0
+        for c in cases:
+            if c['op'] == 'xz_enc' and c['r'].get('verdict') == 'ok' and n < (30 if quick else 200):
+                n += 1
+                p = subprocess.run(['xz', '-dc'], input=unhx(c['r']['out']), stdout=subprocess.PIPE, stderr=subprocess.DEVNULL)
+                ck.count('xz_binary_decodes')
+                if p.returncode != 0 or p.stdout != c['data']:
+                    ck.violation('oracle', 'xz -dc does not decode xz_compress output back to the input', replay_dict(c))
+
+# ------------------------------------------------------------------ streaming helpers
+def stream_calls(data, lens, tail='x'):
+    return ';'.join(['W:%s' % hx(p) for p in pieces(data, lens)] + [tail])
+
+def corrupt(rng, b, lo=0):
+    if len(b) <= lo: return b
+    m = bytearray(b)
+    for _ in range(rng.range(1, 3)):
+        p = rng.range(lo, len(b) - 1); m[p] ^= 1 << rng.below(8)
+    return bytes(m)
+
+def lzma_variants(rng, s):
+    """(kind, bytes, opt) inputs derived from a well-formed stream s: valid, truncated, corrupted, trailing, other options"""
+    b = s['bytes']
+    out = [('valid', b, 'rfh')]
+    out.append(('truncated', b[:rng.range(0, len(b) - 1)], 'rfh'))
+    out.append(('truncated_tail', b[:len(b) - rng.range(1, min(6, len(b)))], 'rfh'))
+    out.append(('corrupt', corrupt(rng, b, 13), 'rfh'))
+    out.append(('corrupt_header', corrupt(rng, b[:13]) + b[13:], 'rfh'))
+    out.append(('trailing', b + rng.bytes(rng.range(1, 25)), 'rfh'))
+    n = s['n']
+    out.append(('rhp', b, 'rhp:%s' % ('none' if s['style'] == 'marker' else n)))
+    out.append(('rhp_wrong', b, 'rhp:%d' % rng.choice([0, max(0, n - 1), n + 1])))
+    out.append(('up', b[:5] + b[13:], 'up:%s' % ('none' if s['style'] == 'marker' else n)))
+    out.append(('up_wrong', b[:5] + b[13:], 'up:%d' % rng.choice([0, max(0, n - 1), n + 1, n + 300])))
+    return out
+
+@prop('C05', 'LZMA inputs (well-formed streams of every symbol kind, truncated, corrupted, with trailing bytes; all three header options, size known/unknown) x chunkings (whole, single bytes, every single cut for short inputs, cuts inside the first 40 bytes, random compositions with empty pieces); Stream write*/finish vs lzma_decompress_with_options on the concatenation, both on the implementation and on the model; non-trivial = more than one piece and input longer than the header')
+def run_C05(ck):
+    rng = Rng(ck.seed).fork('C05')
+    quick = ck.tier == 'quick'
+    streams = gen_lzma_streams(rng, 50 if quick else 400, big_every=25, max_syms=40)
+    cases = []
+    for s in streams:
+        for kind, data, opt in lzma_variants(rng, s):
+            hows = ['whole', 'bytes', 'single', 'early', 'random', 'random'] if len(data) < 400 else ['whole', 'single', 'early', 'random']
+            if len(data) <= 40 and rng.chance(1, 3):
+                cuts = [[c, len(data) - c] for c in range(len(data) + 1)]
+            else:
+                cuts = [chunkings(rng, len(data), h) for h in hows]
+            one = {'line': 'lzma_dec opt=%s in=%s' % (opt, hx(data)), 'meta': {'kind': kind, 'opt': opt}}
+            cases.append(one)
+            for lens in cuts:
+                cases.append({'line': 'stream opt=%s calls=%s' % (opt, stream_calls(data, lens)),
+                              'meta': {'kind': kind, 'opt': opt, 'pieces': lens if len(lens) < 40 else len(lens)}, 'oneshot': one, 'n': len(data), 'npieces': len(lens)})
+                ck.count('kind_' + kind); ck.count('opt_' + opt.split(':')[0])
+    cases.append({'line': 'stream opt=rfh calls=x', 'meta': {'kind': 'empty'}, 'empty': True})
+    cases.append({'line': 'stream opt=rfh calls=W:-;W:-;x', 'meta': {'kind': 'empty'}, 'empty': True})
+    run_both(ck, cases)
+    for c in cases:
+        if 'oneshot' not in c and 'empty' not in c:
+            judge(ck, c, ['verdict', 'out'], None, 'both'); continue
+        ck.note_case(c['line'], c.get('npieces', 0) > 1 and c.get('n', 0) > 13)
+        def oracle(c):
+            r = c['r']; calls = r.get('res', '').split(';')
+            if any(x.endswith('panic') or ':panic' in x for x in calls): return 'streaming decoder panicked'
+            fin = calls[-1]
+            if c.get('empty'):
+                return None if (fin == 'x:ok' and r.get('out') == '-') else 'zero total input must finish Ok with empty output'
+            o = c['oneshot']['r']
+            sv = 'ok' if fin == 'x:ok' and not any(x.startswith('W:err') for x in calls) else 'err'
+            if sv != o.get('verdict'):
+                return 'streaming verdict %s differs from one-shot verdict %s' % (sv, o.get('verdict'))
+            if sv == 'ok' and r.get('out') != o.get('out'):
+                return 'streaming output differs from one-shot output'
+            return None
+        judge(ck, c, ['res', 'out'], oracle, 'both')
+
+# ------------------------------------------------------------------ C08: size and end-of-stream rules
+@prop('C08', 'well-formed LZMA streams x {ReadFromHeader, ReadHeaderButUseProvided(None|Some n), UseProvided(None|Some n)} x header size field {all-ones, true, true+-1, 0, 2^63} x end marker present/absent x n in {true, +-1, 0} x trailing bytes, one-shot and streaming; the expected verdict is computed from the construction; non-trivial = a size or marker rule is exercised')
+def run_C08(ck):
+    rng = Rng(ck.seed).fork('C08')
+    quick = ck.tier == 'quick'
+    cases = []
+    reqs, metas = [], []
+    for k in range(60 if quick else 500):
+        lc, lp, pb = rand_props(rng)
+        pbld = random_program(rng, rng.range(1, 30), 4096, lit_bias=2)
+        if rng.chance(1, 2) and pbld.maxd() > 0:
+            pbld.match(pick_dist(rng, pbld.maxd()), rng.range(3, 60))     # ends with a match so that n-1 falls inside it
+        marker = rng.chance(1, 2)
+        reqs.append('ref_lzma lc=%d lp=%d pb=%d dict=%d size=none prog=%s' % (lc, lp, pb, rng.choice([0, 4096, 65536]), pbld.text(marker)))
+        metas.append({'n': pbld.n, 'marker': marker, 'last_is_match': pbld.syms[-1][0] in 'MR', 'last_len': int(pbld.syms[-1].split(',')[1]) if pbld.syms[-1][0] in 'MR' else 1})
+    for enc, meta in zip(ref_encode(reqs), metas):
+        if enc is None: raise InfraError('reference encoder rejected a C08 program')
+        b, out = enc; T = meta['n']
+        payload = b[13:]
+        for hsize in ['ones', T, T - 1, T + 1, 0, 1 << 63]:
+            field = ALL_ONES if hsize == 'ones' else max(0, hsize)
+            for trailing in ([b''] if not quick or rng.chance(2, 3) else []) + ([rng.bytes(rng.range(1, 9))] if rng.chance(1, 3) else []):
+                opts = [('rfh', None if hsize == 'ones' else field, 13)]
+                opts.append(('rhp:none', None, 13))
+                for nn in (T, T - 1, T + 1, 0):
+                    if nn >= 0 and rng.chance(1, 2):
+                        opts.append(('rhp:%d' % nn, nn, 13)); opts.append(('up:%d' % nn, nn, 5))
+                opts.append(('up:none', None, 5))
+                for opt, eff, hl in (opts if not quick else [rng.choice(opts), rng.choice(opts)]):
+                    hdr = b[:5] + (struct.pack('<Q', field) if hl == 13 else b'')
+                    data = hdr + payload + trailing
+                    # expected verdict from the construction
+                    if eff is None:
+                        expect = 'ok' if (meta['marker'] and not trailing) else 'err'
+                    elif eff == T:
+                        expect = 'ok'
+                    elif eff > T:
+                        # certain only when the marker is met first; otherwise trailing bytes (or symbols that need
+                        # no further input) may legitimately be decoded up to the size in effect
+                        expect = 'err' if meta['marker'] else None
+                    else:
+                        expect = None          # stops early: ok only on a symbol boundary; checked through the length rule
+                    m = {'eff': eff, 'T': T, 'marker': meta['marker'], 'trailing': len(trailing), 'opt': opt, 'hsize': str(hsize), 'hdrlen': hl}
+                    if rng.chance(2, 3):
+                        cases.append({'line': 'lzma_dec opt=%s in=%s' % (opt, hx(data)), 'meta': m, 'expect': expect, 'true_out': out, 'paylen': len(payload)})
+                    else:
+                        lens = chunkings(rng, len(data), rng.choice(['whole', 'single', 'random', 'early']))
+                        cases.append({'line': 'stream opt=%s calls=%s' % (opt, stream_calls(data, lens)), 'meta': m, 'expect': expect, 'true_out': out, 'stream': True})
+                    ck.count('eff_' + ('none' if eff is None else 'eq' if eff == T else 'gt' if eff > T else 'lt')); ck.count('opt_' + opt.split(':')[0])
+    run_both(ck, cases)
+    for c in cases:
+        ck.note_case(c['line'])
+        def oracle(c):
+            r, m = c['r'], c['meta']
+            if c.get('stream'):
+                calls = r.get('res', '').split(';')
+                v = 'panic' if any('panic' in x for x in calls) else ('ok' if calls[-1] == 'x:ok' and not any(x.startswith('W:err') for x in calls) else 'err')
+            else:
+                v = r.get('verdict')
+            out = unhx(r.get('out', '-'))
+            if v == 'panic': return 'panic'
+            if c['expect'] and v != c['expect']:
+                return 'size/end-of-stream rule violated: expected %s, implementation says %s (size in effect %s, true length %d, marker %s, trailing %d)' % (c['expect'], v, m['eff'], m['T'], m['marker'], m['trailing'])
+            if v == 'ok':
+                if m['eff'] is not None and len(out) != m['eff']:
+                    return 'success with %d bytes although the size in effect is %d' % (len(out), m['eff'])
+                if not is_prefix(out[:m['T']], c['true_out']):
+                    return 'success with output that is not a prefix of the defined output'
+                if not c.get('stream') and m['eff'] == m['T'] and not m['marker'] and int(r.get('pos', -1)) != m['hdrlen'] + c['paylen']:
+                    return 'header option consumed an unexpected number of header bytes (pos %s)' % r.get('pos')
+            return None
+        judge(ck, c, ['res', 'out'] if c.get('stream') else ['verdict', 'out', 'pos'], oracle, 'both')
+
+# ------------------------------------------------------------------ C09: out-of-window references
+@prop('C09', 'symbol programs in which one copy (match, short rep, rep0-3) has a distance beyond the bytes produced or beyond the dictionary {produced+1, dict+1, 2^32-1, ...} at every position relative to the wrap point, encoded by the lenient reference encoder up to and including the bad symbol; circular window via header (4096) and raw API (dictionaries 1-8), accumulating window via LZMA2 after dictionary resets; non-trivial = all')
+def run_C09(ck):
+    rng = Rng(ck.seed).fork('C09')
+    quick = ck.tier == 'quick'
+    reqs, metas = [], []
+    def bad_copy(pb, window):
+        """append one ill-formed copy symbol to pb; returns a description"""
+        md = pb.maxd()
+        lim_desc = []
+        choices = []
+        # a new distance beyond the produced bytes or the window
+        cand = [pb.n + 1, pb.n + 2, 0xFFFFFFFF, pb.n + rng.range(1, 5000)]
+        if window is not None:
+            cand += [window + 1, window + rng.range(1, 50)]
+            if pb.n > window: cand += [pb.n, pb.n - 1 if pb.n - 1 > window else window + 1]
+        d = rng.choice([c for c in cand if c > md and c <= 0xFFFFFFFF])
+        kind = rng.below(3)
+        if kind == 0 or pb.n == 0 and kind == 1:
+            pb.syms.append('M%d,%d' % (d, pick_len(rng))); return 'match dist %d > %d' % (d, md)
+        # poison a rep slot is impossible in a well-formed prefix, so use reps that are stale relative to a window we shrink:
+        if pb.n == 0:
+            pb.syms.append('S' if kind == 1 else 'R0,%d' % pick_len(rng)); return 'rep at position 0'
+        pb.syms.append('M%d,%d' % (d, pick_len(rng))); return 'match dist %d > %d' % (d, md)
+    for k in range(900 if quick else 6000):
+        lc, lp, pb3 = rand_props(rng)
+        mode = rng.below(3)
+        if mode == 0:      # header API, window 4096, sometimes after the window has wrapped
+            pbld = random_program(rng, 400 if rng.chance(1, 4) else rng.range(0, 30), 4096, lit_bias=1, until=rng.choice([0, 5, 4000, 4096, 4097, 8200, 12288]))
+            desc = bad_copy(pbld, 4096)
+            reqs.append('ref_lzma lenient=1 lc=%d lp=%d pb=%d dict=%d size=none prog=%s' % (lc, lp, pb3, rng.choice([0, 4096]), pbld.text()))
+            metas.append({'api': 'lzma', 'desc': desc, 'produced': pbld.n})
+        elif mode == 1:    # raw API, tiny dictionaries
+            d = rng.choice([1, 2, 3, 4, 5, 8])
+            pbld = random_program(rng, rng.range(0, 40), d, lit_bias=2)
+            desc = bad_copy(pbld, d)
+            reqs.append('ref_payload lenient=1 lc=%d lp=%d pb=%d window=%d prog=%s' % (lc, lp, pb3, d, pbld.text()))
+            metas.append({'api': 'raw', 'dict': d, 'props': (lc, lp, pb3), 'desc': desc, 'produced': pbld.n})
+        else:              # LZMA2: distance reaching before the last dictionary reset
+            lc, lp, pb3 = rand_props(rng, lzma2=True)
+            pre = rng.bytes(rng.range(1, 50))
+            pbld = ProgBuilder(None)
+            for _ in range(rng.range(0, 20)): pbld.random_sym(rng, 2)
+            desc = bad_copy(pbld, None)
+            reqs.append('ref_lzma2 lenient=1 chunks=U1:%s/Z3:%d,%d,%d:0:%s' % (hx(pre), lc, lp, pb3, pbld.text()))
+            metas.append({'api': 'lzma2', 'desc': desc, 'produced': pbld.n, 'before_reset': len(pre)})
+    cases = []
+    for enc, meta in zip(ref_encode(reqs), metas):
+        if enc is None: raise InfraError('lenient reference encoder failed')
+        b, out = enc
+        if meta['api'] == 'lzma':
+            line = 'lzma_dec opt=rfh in=%s' % hx(b)
+        elif meta['api'] == 'raw':
+            lc, lp, pb3 = meta['props']
+            line = 'raw_lzma lc=%d lp=%d pb=%d dict=%d size=none ops=d:%s' % (lc, lp, pb3, meta['dict'], hx(b))
+        else:
+            line = 'lzma2_dec in=%s' % hx(b)
+        cases.append({'line': line, 'meta': meta, 'good_out': out})
+        ck.count('api_' + meta['api'])
+    run_both(ck, cases)
+    for c in cases:
+        ck.note_case(c['line'])
+        def oracle(c):
+            r = c['r']
+            if c['meta']['api'] == 'raw':
+                parts = r.get('res', '').split(';')
+                v = parts[1].split(':')[1] if len(parts) > 1 else 'err'
+                out = unhx(parts[1].split(':')[2]) if len(parts) > 1 else b''
+            else:
+                v, out = r.get('verdict'), unhx(r.get('out', '-'))
+            if v != 'err': return 'a copy reaching outside the produced window (%s) was not rejected: %s' % (c['meta']['desc'], v)
+            if not is_prefix(out, c['good_out']): return 'bytes were fabricated for an out-of-window reference'
+            return None
+        judge(ck, c, ['res'] if c['meta']['api'] == 'raw' else ['verdict', 'out'], oracle, 'both')
